@@ -93,8 +93,7 @@ def tlc(pid, family, module, cfg=None, *, workers=None, simulate=None, depth=Non
     cfg = cfg or (module + ".cfg")
     meta = os.path.join(d, "meta")
     java = ["java", "-XX:+UseParallelGC", "-Xss64m"]
-    if heap:
-        java.append("-Xmx%s" % heap)
+    java.append("-Xmx%s" % (heap or os.environ.get("VERIF_TLC_HEAP", "8g")))
     if dfs:
         java.append("-Dtlc2.tool.queue.IStateQueue=StateDeque")
     cmd = java + ["-cp", TLA_JAR, "tlc2.TLC", "-metadir", meta, "-config", cfg]
@@ -228,19 +227,34 @@ def go_env():
     return env
 
 
+_harness_dir = [None]
+
+
 def prepare_harness():
-    """go.sum is copied from the repository on every run; go.mod's replace follows VERIF_REPO."""
-    shutil.copy(os.path.join(REPO, "go.sum"), os.path.join(HARNESS, "go.sum"))
-    gm = os.path.join(HARNESS, "go.mod")
-    txt = open(gm).read()
-    new = re.sub(r"replace github.com/obolnetwork/charon => \S+", "replace github.com/obolnetwork/charon => " + REPO, txt)
-    if new != txt:
-        open(gm, "w").write(new)
+    """Returns the harness directory to build in.  go.sum is copied from the repository on every run.  When
+    VERIF_REPO points at a scratch worktree (mutation experiments) a private copy of the harness with its own
+    replace line is used, so concurrent runs against different trees do not disturb each other."""
+    if _harness_dir[0]:
+        return _harness_dir[0]
+    if os.path.realpath(REPO) == "/repo":
+        h = HARNESS
+    else:
+        h = os.path.join(WORK, "_harness_%s" % hashlib.sha1(REPO.encode()).hexdigest()[:10])
+        if os.path.isdir(h):
+            shutil.rmtree(h)
+        shutil.copytree(HARNESS, h)
+        gm = os.path.join(h, "go.mod")
+        txt = open(gm).read()
+        open(gm, "w").write(re.sub(r"replace github.com/obolnetwork/charon => \S+",
+                                   "replace github.com/obolnetwork/charon => " + REPO, txt))
+    shutil.copy(os.path.join(REPO, "go.sum"), os.path.join(h, "go.sum"))
+    _harness_dir[0] = h
+    return h
 
 
 def go_exec(pkg, test, env_vars, timeout=900, tags="verif", race=False):
     """Run one executor (a Go test in the harness module, built against REPO's working tree)."""
-    prepare_harness()
+    hdir = prepare_harness()
     env = go_env()
     env.update({k: str(v) for k, v in env_vars.items()})
     cmd = ["go", "test", "-tags", tags, "-count=1", "-vet=off", "-timeout", "%ds" % int(timeout), "-run", "^%s$" % test]
@@ -250,7 +264,7 @@ def go_exec(pkg, test, env_vars, timeout=900, tags="verif", race=False):
     t0 = time.time()
     logp = os.path.join(workdir("_go"), "%s_%d.log" % (pkg.replace("/", "_"), os.getpid()))
     with open(logp, "w") as fo:
-        p = subprocess.run(["timeout", "-s", "KILL", str(int(timeout) + 120), *cmd], cwd=HARNESS, env=env,
+        p = subprocess.run(["timeout", "-s", "KILL", str(int(timeout) + 120), *cmd], cwd=hdir, env=env,
                            stdout=fo, stderr=subprocess.STDOUT)
     with open(logp, "rb") as fi:
         fi.seek(0, 2)
